@@ -495,6 +495,12 @@ def real_pool(rep: Report, mods, t: str, rng: random.Random, stats: dict):
             folder = rng.choice(("aaa_first", "pkg_x", "pkg_y/sub"))
             files[f"{folder}/m{j}.py"] = rng.choice(snippets)
         trees.append(files)
+    # a file that sorts first loses, by being formatted, its only use of a name another folder defines: what the later file may
+    # keep must not depend on whether the earlier one has been rewritten already (the preserve sets are those of the ORIGINAL texts)
+    trees.append({"alpha/consumer.py": "from beta.provider import rare_helper, common_helper\n\n\ndef _never_called():\n    return rare_helper(1)\n\n\n"
+                                       "def run():\n    return common_helper(2)\n\n\nprint(run())\n",
+                  "alpha/__init__.py": "", "beta/__init__.py": "",
+                  "beta/provider.py": "def rare_helper(v):\n    return v + 1\n\n\ndef common_helper(v):\n    return v * 2\n\n\ndef unused_everywhere(v):\n    return v\n"})
     jobs, meta = [], {}
     for ti, files in enumerate(trees):
         for max_passes in (1, 5):
@@ -511,7 +517,7 @@ def real_pool(rep: Report, mods, t: str, rng: random.Random, stats: dict):
                 meta[j["id"]] = (ti, max_passes, f"n_cores={n_cores}")
         # the options of the run reach every file whatever the number of workers: safe mode, files given as preserved
         some = sorted(files)[1::3]
-        for oi, opts in enumerate(({"safe": True}, {"preserved": some}, {"safe": True, "preserved": some})):
+        for oi, opts in enumerate(({"safe": True}, {"preserved": some}, {"safe": True, "preserved": some}, {"preserved": sorted(files)})):
             base = {"id": len(jobs), "files": files, "order": sorted(files), "n_cores": 1, "max_passes": 1, "opts": opts}
             jobs.append(base)
             meta[base["id"]] = ((ti, oi), 1, "reference")
@@ -599,6 +605,9 @@ STRINGY = [
     # names that are used but not imported, next to an import group that carries comments: the added imports have one order
     'import os  # operating system\n# the interpreter\nimport sys\n\nprint(os.sep, sys.maxsize > 0, json.dumps(1), math.pi, re.I, shlex.quote("a"), heapq.heapify, glob.glob)\n',
     'import os\n\n\ndef run():\n    # the rest is imported lazily\n    return os.sep, json.dumps(1), math.pi, re.I, shlex.quote("a"), heapq.heapify, glob.glob, time.time() > 0\n\n\nprint(run()[:4])\n',
+    # one bound stated twice in spellings that are not textually equal, with another operand in between: which one goes?
+    'def pick(x, y, z):\n    if x > 3 and y and 3 < x:\n        return 1\n    if z <= 7 or y or 7 >= z:\n        return 2\n    if y > 0 and z and 0 < y and x:\n        return 3\n'
+    '    return 4 if (x >= 2 and z and 2 <= x) else 5\n\n\nprint(pick(4, 1, 1), pick(1, 0, 3), pick(0, 2, 9), pick(2, 0, 9))\n',
 ]
 
 
